@@ -194,6 +194,16 @@ class FastSig:
                     if getattr(v, "__module__", None) != mname:
                         continue
                     cd = vars(v)
+                    # default objects of pydantic fields are shared by every instance that does not override them
+                    mf = cd.get("model_fields") or cd.get("__pydantic_fields__")
+                    if isinstance(mf, dict):
+                        for fname, finfo in mf.items():
+                            dflt = getattr(finfo, "default", None)
+                            if isinstance(dflt, (dict, list, set, bytearray)) or \
+                                    (getattr(type(dflt), "__module__", "") or "").startswith("rtflite"):
+                                slots.append((finfo.__dict__ if hasattr(finfo, "__dict__") else {"default": dflt},
+                                              "default") if hasattr(finfo, "__dict__") and "default" in finfo.__dict__
+                                             else ({"default": dflt}, "default"))
                     for an, av in list(cd.items()):
                         if an.startswith("__"):
                             continue
